@@ -96,7 +96,17 @@ fn cursors_for(rng: &mut Rng, input: &str) -> Vec<u32> {
 
 fn check_one(out: &mut CaseOut, input: &str, cfg: &Cfg, cursors: &[u32], what: &str) {
     out.evals += 1;
+    let c0 = exec::thread_cpu_ms();
     let obs = exec::format_obs(cfg, input, cursors, exec::step_budget(input.len()));
+    let cpu_ms = exec::thread_cpu_ms() - c0;
+    if cpu_ms > 2_000.0 {
+        out.count("calls_over_2s_cpu");
+        if let Some(dir) = std::env::var_os("VERIF_DUMP_SLOW") {
+            let _ = std::fs::create_dir_all(&dir);
+            let name = format!("slow-{:016x}.json", rng::hash_str(input));
+            let _ = std::fs::write(std::path::Path::new(&dir).join(name), serde_json::to_string(&json!({"input": input, "cfg": cfg.short(), "cpu_ms": cpu_ms, "steps": obs.steps, "what": what})).unwrap());
+        }
+    }
     if let Err(p) = &obs.out {
         let class = if p.step_limit { "step-limit".to_string() } else { format!("panic:{}", p.location.rsplit('/').next().unwrap_or(&p.location)) };
         let mut v = crate::prop::Violation {
@@ -274,7 +284,7 @@ impl Prop for C04 {
                         let input = soup::family(name, n);
                         out.evals += 1;
                         let c0 = exec::thread_cpu_ms();
-                        let obs = exec::format_obs(&cfg, &input, &[], u64::MAX);
+                        let obs = exec::format_obs(&cfg, &input, &[], exec::step_budget(input.len()));
                         let cpu_ms = exec::thread_cpu_ms() - c0;
                         match &obs.out {
                             Ok(_) => {
@@ -308,6 +318,11 @@ impl Prop for C04 {
                                     }
                                 }
                                 prev = Some((n, obs.steps));
+                            }
+                            Err(p) if p.step_limit => {
+                                out.violate("C04", &format!("step-limit:{name}"), format!("family {name} n={n} ({} bytes): more than {} logical steps", input.len(), exec::step_budget(input.len())), &short(&input, 6000), Some(&cfg));
+                                // larger members of the family would only take longer
+                                break;
                             }
                             Err(p) => {
                                 out.violate("C04", &format!("panic:{}", p.location.rsplit('/').next().unwrap_or("")), format!("family {name} n={n}: {}", p.message), &short(&input, 2000), Some(&cfg));
